@@ -680,6 +680,17 @@ impl Model {
             }
         };
 
+        // Freshness of the adopted value: a callee serial that was issued before (in a run of far
+        // fewer than 2^32 calls) would let a late duplicate reply to the old call pass as the
+        // reply to this one - "duplicate replies are never delivered" cannot hold then.
+        if adopted.is_some() && !self.seen_callee_serials.insert(callee_serial) {
+            self.violate(
+                "state.calls.callee-serial-reused",
+                &[Prop::C02],
+                format!("call (conn {c}, serial {serial}) was given callee serial {callee_serial}, which an earlier call of this run already had"),
+            );
+        }
+
         self.calls.insert(
             callee_serial,
             MCall {
